@@ -33,7 +33,7 @@ func main() {
 			"Simulator half: the sequence of log lines, the per-statement snapshots of every pooled variable (debugger snapshot monitor) and the reported error must be equal. " +
 			"non-trivial = a pair whose decoration changed the token stream seen by the parser (>=1 comment or different line structure) and whose P has >=1 diagnostic (lint) or executes >=3 statements (sim); distinct by text of D(P)",
 		Assumptions: []string{
-			"a decorated variant that no longer parses is outside the property (the grammar does not allow a comment there) and is only counted",
+			"a decorated variant that no longer parses is a violation when every inserted comment sits at a placeholder docs/parser.md documents (or only whitespace changed); at other gaps it is outside the property and only counted",
 			"only deterministic constructs are executed in the simulator half",
 		},
 		Gen:           genCases,
@@ -44,6 +44,9 @@ func main() {
 }
 
 func genCases(g *fw.GenCtx) {
+	for k := 0; k < g.Pick(2, 20); k++ {
+		g.Emit("hand", ccase{Seed: g.Rand.Int63()})
+	}
 	for k := 0; k < g.Pick(60, 1500); k++ {
 		g.Emit("lint-single", ccase{Seed: g.Rand.Int63(), N: 3, Single: true})
 	}
@@ -145,6 +148,18 @@ func checkLintPair(oc *fw.Outcome, p *gen.Program, base []string, src0 string, p
 	cur, src1, status := lintMapped(oc, p, pl)
 	switch {
 	case status == "noparse":
+		// the plain program parses: a comment at a documented placeholder, or different whitespace, must not make it unparseable
+		doc := true
+		for gap := range pl.Comments {
+			if gap < len(p.Toks) && !p.Toks[gap].Doc {
+				doc = false
+			}
+		}
+		if doc {
+			oc.Violate(what+"/noparse", "the program no longer parses when only comments at documented placeholders / whitespace are inserted",
+				map[string]any{"plain": clip(src0, 2500), "decorated": clip(src1, 2500), "plan": pl})
+			return
+		}
 		oc.Tag("decorated-variant-does-not-parse")
 		return
 	case status != "":
@@ -186,6 +201,33 @@ func runLint(oc *fw.Outcome, cc ccase) {
 		}
 		p := gen.New(r, opts).Program()
 		base, src0, status := lintMapped(oc, p, render.Plan{Mode: "canonical"})
+		if status == "noparse" {
+			// the relation is symmetric (comments may be REMOVED): a program that does not parse must
+			// not start to parse because comments were put at documented placeholders
+			oc.Tag("base:noparse")
+			var docGaps []int
+			for i, t := range p.Toks {
+				if t.Doc {
+					docGaps = append(docGaps, i)
+				}
+			}
+			for k := 0; k < 12 && len(docGaps) > 0; k++ {
+				pl := render.Plan{Mode: "canonical", Comments: map[int][]render.Comment{}}
+				for n := 1 + r.Intn(6); n > 0; n-- {
+					gap := docGaps[r.Intn(len(docGaps))]
+					c := render.NewPlainComment(r, n)
+					c.Style = "/*"
+					pl.Comments[gap] = append(pl.Comments[gap], c)
+				}
+				_, src1, st := lintMapped(oc, p, pl)
+				if st == "" {
+					oc.Violate("unparseable-parses-with-comments", "a program that does not parse is accepted once comments are inserted at documented placeholders",
+						map[string]any{"plain": clip(src0, 2500), "decorated": clip(src1, 2500), "plan": pl})
+					break
+				}
+			}
+			continue
+		}
 		if status != "" {
 			oc.Tag("base:" + strings.SplitN(status, " ", 2)[0])
 			continue
@@ -202,7 +244,7 @@ func runLint(oc *fw.Outcome, cc ccase) {
 			for gap := 0; gap <= len(p.Toks); gap++ {
 				for _, style := range []string{"#", "//", "/*"} {
 					serial++
-					c := render.NewComment(r, serial)
+					c := render.NewPlainComment(r, serial)
 					c.Style = style
 					pl := render.Plan{Mode: "canonical", Comments: map[int][]render.Comment{gap: {c}}}
 					checkLintPair(oc, p, base, src0, pl, slotAt(p, gap)+"/"+styleName(c))
@@ -215,7 +257,7 @@ func runLint(oc *fw.Outcome, cc ccase) {
 			pl := render.Plan{Mode: []string{"canonical", "random"}[r.Intn(2)], Seed: r.Int63(), Comments: map[int][]render.Comment{}}
 			for n := 1 + r.Intn(10); n > 0; n-- {
 				gap := r.Intn(len(p.Toks) + 1)
-				pl.Comments[gap] = append(pl.Comments[gap], render.NewComment(r, n))
+				pl.Comments[gap] = append(pl.Comments[gap], render.NewPlainComment(r, n))
 			}
 			// localise by construction: on failure re-test each decorated gap alone
 			cur, _, st := lintMapped(oc, p, pl)
@@ -244,10 +286,91 @@ func runLint(oc *fw.Outcome, cc ccase) {
 	}
 }
 
+// hand templates: «» marks a documented placeholder; the plain program has none of them filled.
+// They cover programs that do NOT parse (the generator only produces parseable ones).
+var handTemplates = []string{
+	"sub vcl_recv {\n#FASTLY RECV\nswitch «» ( «» req.http.A «» ) «» {\ncase «» \"a\" «» : «»\nbreak «» ;\ncase «» \"a\" «» : «»\nbreak «» ;\n}\nreturn ( lookup ) ;\n}\n",
+	"sub vcl_recv {\n#FASTLY RECV\nswitch ( req.http.A ) {\ncase ~ «» \"a\" «» : «»\nbreak ;\ncase ~ «» \"a\" «» :\nbreak ;\ndefault «» : «»\nbreak ;\ndefault «» :\nbreak ;\n}\n}\n",
+	"sub vcl_recv {\n#FASTLY RECV\nswitch ( req.http.A ) {\ncase «» \"a\" «» : «»\nfallthrough «» ; «»\n}\n}\n",
+	"sub vcl_recv {\n#FASTLY RECV\nswitch ( req.http.A ) { «»\n}\n}\n",
+	"sub vcl_recv {\n#FASTLY RECV\nset «» req.http.A «» = «» \"a\" «»\n«» set req.http.B = \"b\" ;\n}\n",
+	"sub vcl_recv {\n#FASTLY RECV\nif «» ( «» req.http.A «» ) «» { «» } «» else «» if ( req.http.B ) { } else «» { «» } else { }\n}\n",
+	"acl «» a «» { «»\n\"10.0.0.0\" «» / «» 40 «» ; «»\n}\nacl «» a «» { }\n",
+	"table «» t «» STRING «» { «»\n\"k\" «» : «» \"v\" «» , «»\n\"k\" «» : «» \"w\" «»\n}\n",
+	"sub f «» STRING «» { «» return «» \"x\" «» ; «» }\nsub f «» STRING { return \"y\" ; }\nsub vcl_recv {\n#FASTLY RECV\nset req.http.A = f «» ( «» ) «» ;\ncall «» nosuch «» ;\ngoto «» lbl «» ;\n}\n",
+}
+
+func runHand(oc *fw.Outcome, cc ccase) {
+	r := rand.New(rand.NewSource(cc.Seed))
+	lintText := func(src string) ([]string, string) {
+		fw.JournalS(src)
+		oc.Evals++
+		var res *lintutil.Result
+		pn, msg, st := fw.Guard(func() { res = lintutil.Lint(src, nil) })
+		if pn {
+			return nil, "panic:" + fw.PanicKey(st) + " " + msg
+		}
+		if res.ParseErr != nil {
+			return nil, "noparse"
+		}
+		var out []string
+		for _, d := range res.Diags {
+			out = append(out, d.NoPos())
+		}
+		return out, ""
+	}
+	for ti, tpl := range handTemplates {
+		parts := strings.Split(tpl, "«»")
+		plain := strings.Join(parts, "")
+		base, st0 := lintText(plain)
+		oc.Tag("hand-base:" + map[bool]string{true: "parses", false: "does-not-parse"}[st0 == ""])
+		if ti == 0 {
+			oc.Sample = map[string]any{"template": tpl, "plain_status": st0}
+		}
+		for gi := 0; gi < len(parts)-1; gi++ {
+			for _, style := range []string{"/*", "//", "#"} {
+				c := render.NewPlainComment(r, gi+1)
+				c.Style = style
+				var sb strings.Builder
+				for i, pt := range parts {
+					sb.WriteString(pt)
+					if i == gi {
+						sb.WriteString(c.String())
+						if style != "/*" {
+							sb.WriteString("\n")
+						}
+					}
+				}
+				cur, st1 := lintText(sb.String())
+				oc.NonTrivialS(sb.String())
+				what := fmt.Sprintf("hand%d#%d/%s", ti, gi, styleName(c))
+				switch {
+				case strings.HasPrefix(st0, "panic") || strings.HasPrefix(st1, "panic"):
+					oc.Tag("linter-panic-on-variant")
+				case st0 != st1:
+					oc.Violate(what+"/parse-status", fmt.Sprintf("plain program: %q, with one comment at a documented placeholder: %q", st0, st1),
+						map[string]any{"plain": plain, "decorated": sb.String()})
+				case st0 == "" && lintutil.Multiset(cur) != lintutil.Multiset(base):
+					d := lintutil.DiffMultiset(base, cur)
+					if d == "" {
+						d = lintutil.DiffMultiset(cur, base)
+					}
+					oc.Violate(what+"/lint:"+strings.SplitN(d, "|", 2)[0], "diagnostics differ when one comment is inserted: "+clip(d, 200),
+						map[string]any{"plain": plain, "decorated": sb.String(), "plain_diags": base, "decorated_diags": cur})
+				}
+			}
+		}
+	}
+}
+
 func run(c fw.Case) fw.Outcome {
 	var oc fw.Outcome
 	var cc ccase
 	json.Unmarshal(c.Data, &cc)
+	if c.Kind == "hand" {
+		runHand(&oc, cc)
+		return oc
+	}
 	if cc.Sim {
 		tsim.RunC09(&oc, cc.Seed, cc.N, cc.Single, cc.Multi)
 		return oc
